@@ -394,7 +394,13 @@ func c19r3(c *Check) {
 	if call, ok := trace(lookup.Index).(*ssa.Call); ok && call.Call.IsInvoke() && call.Call.Method.Name() == "Sum64" {
 		sum = true
 	}
-	c.Judge(wrote && sum, "validate.Ordered key = hash(name parameter)", c.At(lookup), "the table key is Sum64 of a hash fed with the name parameter", "the per-name table is not keyed by the hash of the name parameter")
+	// or no hasher object at all: the key is an inline 64-bit FNV loop over the bytes of the name parameter
+	// (in Ordered or in a helper of the package)
+	inline := false
+	if src, bits, ok := inlineFNV(lookup.Index); ok && bits == 64 && trace(src) == ssa.Value(keyPar) {
+		inline = true
+	}
+	c.Judge((wrote && sum) || inline, "validate.Ordered key = hash(name parameter)", c.At(lookup), "the table key is Sum64 of a hash fed with the name parameter (or an inline 64-bit FNV over its bytes)", "the per-name table is not keyed by the hash of the name parameter")
 	c.Hold("validate.Ordered paths enumerated", c.AtFn(fn), fmt.Sprintf("%d", len(paths)))
 }
 
